@@ -789,6 +789,20 @@ func (c *codegen) convertFuncDecl(file ast.Node, decl *ast.FuncDecl, pkg *types.
 
 	f.rng.End = uint16(c.prog.Len() - 1)
 
+	// init() and _deploy() bodies are parts of a bigger method, the lambdas met
+	// there are compiled when this method is complete.
+	if !isInit && !isDeploy {
+		c.convertPendingLambdas(file, pkg)
+		c.reverseOffsetMap[int(f.rng.Start)] = nameWithLocals{
+			name:  f.name,
+			count: f.vars.localsCnt,
+		}
+	}
+	return f
+}
+
+// convertPendingLambdas emits the code of the function literals met so far.
+func (c *codegen) convertPendingLambdas(file ast.Node, pkg *types.Package) {
 	// Lambdas are compiled in the order they were met in, so that the same
 	// source always gives the same script.
 	pending := make([]*lambdaScope, 0, len(c.lambda))
@@ -810,14 +824,6 @@ func (c *codegen) convertFuncDecl(file ast.Node, decl *ast.FuncDecl, pkg *types.
 		f.compiled = true
 		c.convertFuncDecl(file, f.decl, pkg)
 	}
-
-	if !isInit && !isDeploy {
-		c.reverseOffsetMap[int(f.rng.Start)] = nameWithLocals{
-			name:  f.name,
-			count: f.vars.localsCnt,
-		}
-	}
-	return f
 }
 
 func (c *codegen) Visit(node ast.Node) ast.Visitor {
@@ -3008,6 +3014,8 @@ func (c *codegen) compile(info *buildInfo, pkg *packages.Package) error {
 		}
 		c.deployEndOffset = c.prog.Len()
 		emit.Opcodes(c.prog.BinWriter, opcode.RET)
+		c.convertPendingLambdas(nil, pkg.Types)
+		c.scope = nil
 	}
 
 	// sort map keys to generate code deterministically.
